@@ -57,6 +57,7 @@ def step (line : String) : String :=
   | "globl" :: args => opGlobLine args
   | "rx" :: args => opRx args
   | "rxl" :: args => opRxLine args
+  | "rxclean" :: args => opRxClean args
   | "oracle-only" :: args => opOracleOnly args
   | "gram" :: args => opGram args
   | "gwhite" :: args => opGWhite args
